@@ -78,6 +78,19 @@ def install():
 
     C._PATCH_REGISTRATIONS[str.__mod__] = _fmt
 
+    # CrossHair's "premature realization" search heuristic (make_concrete_or_symbolic) opens, for every
+    # int/bool/str argument, a parallel branch in which the value is enumerated one by one *before* the
+    # preconditions apply.  It never contributes to exhaustion and (measured on C17) eats >95% of the
+    # iterations once any path realizes an argument.  Always create the symbolic value instead.
+    def _always_symbolic(typ):
+        def make(creator, *type_args):
+            return typ(creator.varname, creator.pytype)
+        return make
+
+    for pytype, symtype in ((int, B.SymbolicBoundedInt), (bool, B.SymbolicBool), (str, B.LazyIntSymbolicStr)):
+        if pytype in C._SIMPLE_PROXIES:
+            C._SIMPLE_PROXIES[pytype] = _always_symbolic(symtype)
+
     from crosshair.libimpl.encodings import _encutil as E
 
     def encode(cls, input, errors="strict"):
